@@ -4,3 +4,4 @@ Redirect "C12/Export_c12_no_double_close" Print Assumptions C12X.c12_no_double_c
 Redirect "C12/Export_c12_closed_after_last_event" Print Assumptions C12X.c12_closed_after_last_event.
 Redirect "C12/Export_c12_no_send_on_closed_group_refuted" Print Assumptions C12X.c12_no_send_on_closed_group_refuted.
 Redirect "C12/Export_c12_client_broker_terminate" Print Assumptions C12X.c12_client_broker_terminate.
+Redirect "C12/Export_c12_broker_done_has_receiver" Print Assumptions C12X.c12_broker_done_has_receiver.
